@@ -194,8 +194,8 @@ func (s *Server) handle(conn net.Conn) {
 
 	s.logger.Debug("connection stats",
 		zap.String("remote", cx.RemoteAddr().String()),
-		zap.Uint64("read", cx.bytesRead),
-		zap.Uint64("written", cx.bytesWritten),
+		zap.Uint64("read", cx.bytesRead.Load()),
+		zap.Uint64("written", cx.bytesWritten.Load()),
 		zap.Duration("duration", duration),
 	)
 }
